@@ -1551,7 +1551,8 @@ func (fr *frame) atStoreClauses(x *ssa.Store, st *State, g string) {
 	for _, cl := range root.contract.Get("at-store") {
 		txt := strings.TrimSpace(cl.Text)
 		i := strings.Index(txt, " requires")
-		if i < 0 || strings.TrimSpace(txt[:i]) != name {
+		// `at-store T.f? requires …`: the trailing ? makes the site optional (a field the function usually leaves at its zero value)
+		if i < 0 || strings.TrimSuffix(strings.TrimSpace(txt[:i]), "?") != name {
 			continue
 		}
 		lab, body := splitLabel(strings.TrimSpace(txt[i+len(" requires"):]))
